@@ -284,6 +284,98 @@ pub fn render_table(s: &SymbolFile) -> String {
 
 pub fn run(line: &str) -> String {
     let c = parse_case(line);
+    let (m, o) = run_parts(&c);
+    format!("{};;{}", m, o)
+}
+
+/// C10: the sync run plus SymbolFile::parse_async over a response body that yields the schedule as chunks
+pub fn run_with_async(line: &str) -> String {
+    let c = parse_case(line);
+    let (m, o) = run_parts(&c);
+    let (am, ao) = run_async_parts(&c);
+    format!("{};{};;{};{}", m, am, o, ao)
+}
+
+/// a response body that yields exactly the given chunks, one data frame each
+struct ChunkBody {
+    chunks: std::collections::VecDeque<bytes::Bytes>,
+}
+
+impl http_body::Body for ChunkBody {
+    type Data = bytes::Bytes;
+    type Error = std::io::Error;
+    fn poll_frame(
+        mut self: std::pin::Pin<&mut Self>,
+        _cx: &mut std::task::Context<'_>,
+    ) -> std::task::Poll<Option<Result<http_body::Frame<bytes::Bytes>, Self::Error>>> {
+        std::task::Poll::Ready(self.chunks.pop_front().map(|b| Ok(http_body::Frame::data(b))))
+    }
+}
+
+thread_local! {
+    static RT: tokio::runtime::Runtime =
+        tokio::runtime::Builder::new_current_thread().enable_all().build().expect("runtime");
+}
+
+/// chunks: the schedule's sizes (at least 1 byte, at most what is left), then the rest as one chunk
+pub fn async_chunks(total: usize, sched: &[usize]) -> Vec<usize> {
+    let mut out = Vec::new();
+    let mut left = total;
+    let mut i = 0;
+    while left > 0 {
+        let n = if i < sched.len() { sched[i].max(1).min(left) } else { left };
+        i += 1;
+        out.push(n);
+        left -= n;
+    }
+    out
+}
+
+/// A=<result>;acb=<callback bytes>,<calls>;aev=<hash of the callback lengths>,<events>;AT=<table>
+/// and for the oracle: acbok=<callback bytes are a prefix of the input>;aeq=<async table == whole-slice table or both errors>
+pub fn run_async_parts(c: &Case) -> (String, String) {
+    let mut chunks = std::collections::VecDeque::new();
+    let mut pos = 0usize;
+    for n in async_chunks(c.data.len(), &c.sched) {
+        chunks.push_back(bytes::Bytes::copy_from_slice(&c.data[pos..pos + n]));
+        pos += n;
+    }
+    let resp: reqwest::Response = http::Response::new(reqwest::Body::wrap(ChunkBody { chunks })).into();
+    let ev = Cell::new(0xcbf29ce484222325u64);
+    let nev = Cell::new(0u64);
+    let mut cblen: usize = 0;
+    let mut cbcalls: u64 = 0;
+    let mut cbok = true;
+    let data = &c.data;
+    let res = RT.with(|rt| {
+        rt.block_on(SymbolFile::parse_async(resp, |b: &[u8]| {
+            cbcalls += 1;
+            mix(&ev, 2);
+            mix(&ev, b.len() as u64);
+            nev.set(nev.get() + 1);
+            if cblen + b.len() > data.len() || &data[cblen..cblen + b.len()] != b {
+                cbok = false;
+            }
+            cblen += b.len();
+        }))
+    });
+    let whole = SymbolFile::from_bytes(&c.data);
+    let eq = match (&res, &whole) {
+        (Ok(a), Ok(b)) => a == b,
+        (Err(_), Err(_)) => true,
+        _ => false,
+    };
+    let t = match &res {
+        Ok(s) => render_table(s),
+        Err(_) => "-".to_string(),
+    };
+    (
+        format!("A={};acb={},{};aev={},{};AT={}", class(&res), cblen, cbcalls, ev.get(), nev.get(), t),
+        format!("acbok={};aeq={}", if cbok { 1 } else { 0 }, if eq { 1 } else { 0 }),
+    )
+}
+
+pub fn run_parts(c: &Case) -> (String, String) {
     let ev = Cell::new(0xcbf29ce484222325u64);
     let nev = Cell::new(0u64);
     let mut rd = ChunkReader { data: &c.data, pos: 0, sched: &c.sched, si: 0, nreads: 0, maxspace: 0, ev: &ev, nev: &nev };
@@ -347,20 +439,18 @@ pub fn run(line: &str) -> String {
     } else {
         ("-".to_string(), "-")
     };
-    format!(
-        "R={};cb={},{};nr={};ms={};ev={},{};T={};;cbok={};W={};eq={};D={};deq={}",
-        class(&res),
-        cblen,
-        cbcalls,
-        rd.nreads,
-        rd.maxspace,
-        ev.get(),
-        nev.get(),
-        t,
-        if cbok { 1 } else { 0 },
-        class(&whole),
-        if eq { 1 } else { 0 },
-        d,
-        deq
+    (
+        format!(
+            "R={};cb={},{};nr={};ms={};ev={},{};T={}",
+            class(&res),
+            cblen,
+            cbcalls,
+            rd.nreads,
+            rd.maxspace,
+            ev.get(),
+            nev.get(),
+            t
+        ),
+        format!("cbok={};W={};eq={};D={};deq={}", if cbok { 1 } else { 0 }, class(&whole), if eq { 1 } else { 0 }, d, deq),
     )
 }
